@@ -3,6 +3,5 @@ package props
 import "verif/harness/pure"
 
 func init() {
-	Registry["C19"] = pure.C19
 	Registry["C20"] = pure.C20
 }
